@@ -86,7 +86,11 @@ func buildFamily(x *Executor, seed uint64, idx int) (*family, int, error) {
 			// which declare tokens: the order in which lox reads them matters
 			cand.TwoFiles, cand.SplitLex = true, true
 		}
-		gv = specgen.GoVariant{FileName: []string{"parser.go", "ast.go", "a.go", "zz.go"}[r.Intn(4)]}
+		if idx%8 == 5 {
+			// one LR state with 36+ outgoing symbols
+			cand = specgen.Generate(r.Uint64(), specgen.Options{RichParser: true, Wide: true})
+		}
+		gv = specgen.GoVariant{FileName: []string{"parser.go", "ast.go", "a.go", "zz.go"}[r.Intn(4)], MixedAny: r.Intn(2) == 0}
 		if r.Intn(4) == 0 {
 			gv.SplitFile = []string{"actions.go", "y_actions.go"}[r.Intn(2)]
 		}
